@@ -5,7 +5,7 @@ from . import base
 ID = 'C03'
 LEVEL = 'exploration'
 PLAN = {
-    'quick': [('synth', 26000), ('synth_reuse', 5000), ('synth_cli_solution', 3000), ('shipped', 640), ('shipped_after', 320)],
+    'quick': [('synth', 26000), ('synth_reuse', 5000), ('synth_cli_solution', 6000), ('shipped', 640), ('shipped_after', 320)],
     'thorough': [('synth', 1000000), ('synth_reuse', 200000), ('synth_cli_solution', 100000), ('shipped', 28000), ('shipped_after', 12000)],
 }
 DEADLINE = {'quick': 200, 'thorough': 3300}
@@ -30,7 +30,9 @@ def eval_cli_solution(case, acc=None):
     if pre:
         simrun.execute_cli(pre, {'prompt': True, 'writeback': False, 'solution': True})
     run = simrun.execute_cli(case, {'prompt': True, 'writeback': bool(case.get('writeback')), 'solution': True,
-                                    'keep_old_solution': bool(pre)})
+                                    'keep_old_solution': bool(pre), 'fickle': True})
+    # (a user who is asked the same question twice answers differently the second time: the last answer is the final input)
+    case = dict(case, persona=run.final_persona)
     fs = []
     if case.get('writeback') and run.file_after is not None and run.outcome in ('solved', 'failed'):
         # "the final inputs": what the input file holds when the command is done must still denote the values the solution
@@ -143,6 +145,13 @@ def run_one(engine, seed, acc, tier):
         pre['refuse_at'] = None
         case['prelude'] = pre
         case['writeback'] = rng.chance(0.5)
+        # answers that are an empty line (a legal way to say 0 / nothing) for some of the questions
+        for n in sorted(case['persona']):
+            spec = simrun.input_spec_of(case['world'], n) or {}
+            if n not in case['file'] and not case['persona'][n]['invalid'] and not spec.get('count') and rng.chance(0.35):
+                z = {'int': ['i', 0], 'float': ['f', '0.0'], 'str': ['s', '']}.get(spec.get('type'))
+                if z:
+                    case['persona'][n] = {'text': '', 'typed': z, 'invalid': False}
     for f in evaluate(case, engine, acc):
         acc.violation(base.violation(ID, f, case, seed, engine))
 
